@@ -173,7 +173,7 @@ def probe_overrides(out, n_assign=6):
                  '        match naga::back::pipeline_constants::process_overrides(&module, &info, &map) {\n'
                  '            Ok((pm, _)) => {\n'
                  '                let mut res = vec![];\n'
-                 '                for (_, c) in pm.constants.iter() { if let Some(n) = &c.name { if let naga::Expression::Literal(l) = &pm.global_expressions[c.init] { res.push(json!({"name": n, "lit": format!("{:?}", l)})); } } }\n'
+                 '                for (_, c) in pm.constants.iter() { if let Some(n) = &c.name { if let naga::Expression::Literal(l) = &pm.global_expressions[c.init] { let canon = match l { naga::Literal::F32(x) => x.canon(), naga::Literal::F64(x) => x.canon(), naga::Literal::I32(x) => x.canon(), naga::Literal::U32(x) => x.canon(), naga::Literal::Bool(x) => x.canon(), naga::Literal::I64(x) => x.canon(), naga::Literal::U64(x) => x.canon(), other => format!("{:?}", other) }; res.push(json!({"name": n, "canon": canon})); } } }\n'
                  '                v.push(json!({"ev": "rt.resolve", "ok": true, "resolved": res}));\n'
                  '            }\n'
                  '            Err(e) => v.push(json!({"ev": "rt.resolve", "ok": false, "err": format!("{e}")})),\n'
@@ -198,7 +198,7 @@ def probe_entries(out, shim):
     fns = out.get("fns", {})
     body = "    use crate::support::Canon;\n"
     body += '    let cmap = |c: &std::collections::HashMap<String, f64>| { let mut es: Vec<(String, f64)> = c.iter().map(|(k, x)| (k.clone(), *x)).collect(); es.sort_by(|a, b| a.0.cmp(&b.0)); es.iter().map(|(k, x)| json!({"key": k, "bits": format!("{:016x}", x.to_bits())})).collect::<Vec<_>>() };\n'
-    body += '    let bufs = |b: &[wgpu::VertexBufferLayout]| b.iter().map(|l| json!({"stride": l.array_stride.to_string(), "step": format!("{:?}", l.step_mode), "attrs": l.attributes.iter().map(|a| json!({"format": format!("{:?}", a.format), "offset": a.offset.to_string(), "location": a.shader_location.to_string()})).collect::<Vec<_>>()})).collect::<Vec<_>>();\n'
+    body += '    let bufs = |b: &[wgpu::VertexBufferLayout]| b.iter().map(|l| json!({"stride": l.array_stride as i64, "step": format!("{:?}", l.step_mode), "attrs": l.attributes.iter().map(|a| json!({"format": format!("{:?}", a.format), "offset": a.offset as i64, "location": a.shader_location as i64, "size": a.format.size() as i64})).collect::<Vec<_>>()})).collect::<Vec<_>>();\n'
     ovx = default_override_expr(out)
     if ovx:
         body += "    let overrides = %s;\n        let omap = overrides.constants();\n" % ovx
@@ -256,5 +256,5 @@ def probe_entries(out, shim):
             any_entry = True
     for vs in out.get("vertex_structs", []):
         n = vs["name"]
-        body += '    v.push(json!({"ev": "rt.vertex_struct", "struct": %s, "attrs": m::%s::VERTEX_ATTRIBUTES.iter().map(|a| json!({"format": format!("{:?}", a.format), "offset": a.offset.to_string(), "location": a.shader_location.to_string()})).collect::<Vec<_>>(), "layout": bufs(&[m::%s::vertex_buffer_layout(wgpu::VertexStepMode::Instance)]), "size_of": std::mem::size_of::<m::%s>().to_string()}));\n' % (rust_str(n), n, n, n)
+        body += '    v.push(json!({"ev": "rt.vertex_struct", "struct": %s, "attrs": m::%s::VERTEX_ATTRIBUTES.iter().map(|a| json!({"format": format!("{:?}", a.format), "offset": a.offset as i64, "location": a.shader_location as i64, "size": a.format.size() as i64})).collect::<Vec<_>>(), "layout": bufs(&[m::%s::vertex_buffer_layout(wgpu::VertexStepMode::Instance)]), "size_of": std::mem::size_of::<m::%s>() as i64}));\n' % (rust_str(n), n, n, n)
     return HEAD + body + TAIL
